@@ -31,6 +31,7 @@ package drpcstream
 //@   inline
 //@   props C03 C07
 //@   requires held(m.Mutex)
+//@   modifies m.held
 //@   effect releases
 //@   check [C03.held-flag] !held(m.Mutex)
 
